@@ -32,7 +32,7 @@ SHARD_WATCHDOG = {"quick": 1500, "thorough": 10800}
 
 
 def gen_cases(tier, seed):
-    n = 72 if tier == "quick" else 480
+    n = 72 if tier == "quick" else 1400
     return [{"i": i, "seed": seed, "tier": tier} for i in range(n)]
 
 
